@@ -74,7 +74,7 @@ bool load_case(Loader l, const std::vector<uint8_t>& v, Stats& st, uint32_t plan
 	std::string fp;
 	if (viaFile) { fp = scratch_path("c11_in.bin"); write_file(fp, v); st.cls("via_file_entry_point"); }
 	try {
-		if (l == LPrt) { ArtFile a; if (viaFile) a = ArtFile::Read(fp); else { Stream::MemoryReader r(h.p, h.n); a = ArtFile::Read(r); } ok = true; prtgen::cross_field(a, "accepted PRT"); prt_followups(a, st, plan); }
+		if (l == LPrt) { ArtFile a; if (viaFile) a = ArtFile::Read(fp); else { Stream::MemoryReader r(h.p, h.n); a = ArtFile::Read(r); } ok = true; /* whether an accepted structure obeys the cross-field rules is C10's question; here: every follow-up on it is safe */ prt_followups(a, st, plan); }
 		else {
 			BitmapFile b;
 			if (viaFile) { if (l == LBmpReader) b = BitmapFile::ReadIndexed(fp); else { Stream::FileReader fr(fp); b = Tileset::ReadTileset(fr); } }
@@ -129,6 +129,16 @@ void run_case(Tape& t, Stats& st) {
 		case 6: if (v.size() >= 54 && v[0] == 'B') { uint64_t sz = wrapped_pitch(int32_t(refvol::get32(v, 18)), refvol::get16(v, 28)) * uint64_t(int32_t(refvol::get32(v, 22)) < 0 ? -int64_t(int32_t(refvol::get32(v, 22))) : int32_t(refvol::get32(v, 22))); for (int j = 0; j < 4; ++j) v[34 + j] = uint8_t(sz >> (8 * j)); } break;   // stated image size made to agree with the (possibly changed) dimensions
 		default: if (v.size() >= 54 && v[0] == 'B') { uint32_t po = refvol::get32(v, 10) + uint32_t(t.below(3)) * 4; for (int j = 0; j < 4; ++j) v[2 + j] = uint8_t(po >> (8 * j)); if (t.flag() && po <= v.size()) v.resize(po); } break;   // file-size field pulled down to the pixel offset
 		}
+	}
+	// PRT, one case in four: a generated structure in which one or two image records combine a degenerate size (0 or 1 in width and/or height)
+	// with a palette index at or beyond the palette count and a scan line that suits the width or is 0 - a rule that looks at one field must
+	// not be switched off by the value of another
+	if (l == LPrt && t.below(4) == 0) {
+		refgfx::LPrt p = prtgen::gen_lprt(t); if (p.palettes.size() > 2) { p.palettes.resize(2); p.palHeaders.resize(2); } if (p.images.size() > 40) p.images.resize(40);
+		if (p.images.empty()) p.images.push_back({4, 0, 1, 4, 0, 0});
+		for (unsigned r = 0; r < 1 + unsigned(t.below(2)); ++r) { auto& im = p.images[t.below(p.images.size())]; im.width = uint32_t(t.below(3)); im.height = uint32_t(t.below(3)); im.scanLine = t.flag() ? ((im.width + 3) & ~3u) : 0; unsigned np = unsigned(p.palettes.size()); im.paletteIndex = t.pick<uint16_t>({uint16_t(np), uint16_t(np + 1), uint16_t(0xFFFF), uint16_t(np ? np - 1 : 0), uint16_t(0x8000)}); im.pixelOffset = uint32_t(t.below(200)); }
+		for (auto& im : p.images) if (im.paletteIndex >= p.palettes.size() && p.palettes.size() && t.below(3)) { /* keep */ }
+		v = refgfx::encode_prt(p); st.cls("prt:degenerate_record_with_foreign_palette_index");
 	}
 	if (st.want_sample()) st.sample(std::string("{\"loader\":\"") + (l == LPrt ? "prt" : l == LTileset ? "tileset" : "bmp") + "\",\"seed\":" + std::to_string(which) + ",\"bytes\":" + std::to_string(v.size()) + ",\"head\":\"" + hex(v, 32) + "\"}");
 	bool ok = load_case(l, v, st, plan, "mutated");
@@ -202,10 +212,10 @@ void run_sweep(Stats& st) {
 	  for (uint32_t ph : {0x7FFFFFE0u, 0x80000000u, 0x80000020u, 0xFFFFFFE0u, 0xFFFFFFC0u, 0x08000000u, 0x08000020u}) { if (!sw("tileset_height", ph)) continue; std::vector<uint8_t> v = refgfx::encode_tileset(0, pal, {}); for (int j = 0; j < 4; ++j) { v[24 + j] = uint8_t(ph >> (8 * j)); uint32_t dl = 32 * ph; v[1092 + j] = uint8_t(dl >> (8 * j)); } auto tail = std::vector<uint8_t>(size_t((32 * ph) <= 4096 ? 32 * ph : 64), 3); v.insert(v.end(), tail.begin(), tail.end()); load_case(LTileset, v, st, 0xFF, "tileset_height"); } }
 	// PRT images whose fields satisfy one rule only because another field is degenerate: width 0..4 x scan line x palette index at/after the
 	// palette count x 0..1 palettes - refused, or (if accepted) every follow-up incl. sprite extraction by every index is safe
-	for (unsigned np = 0; np < 2; ++np) for (uint32_t width : {0u, 1u, 4u}) for (uint32_t pidx : {0u, 1u, 2u, 0xFFFFu}) for (uint32_t scan : {0u, 4u}) {
-		if (!sw("prt_degenerate_image", np, width, pidx, scan)) continue;
+	for (unsigned np = 0; np < 2; ++np) for (uint32_t width : {0u, 1u, 4u}) for (uint32_t pidx : {0u, 1u, 2u, 0xFFFFu}) for (uint32_t scan : {0u, 4u}) for (uint32_t height : {3u, 0u, 1u}) {
+		if (!sw("prt_degenerate_image", np, width * 16 + height, pidx, scan)) continue;
 		refgfx::LPrt p; for (unsigned i = 0; i < np; ++i) { std::array<std::array<uint8_t, 4>, 256> pal{}; p.palettes.push_back(pal); p.palHeaders.push_back({}); }
-		p.images.push_back({scan, 0, 3, width, 0, uint16_t(pidx)}); p.images.push_back({4, 0, 1, 4, 0, uint16_t(np ? 0 : pidx)});
+		p.images.push_back({scan, 0, height, width, 0, uint16_t(pidx)}); p.images.push_back({4, 0, 1, 4, 0, uint16_t(np ? 0 : pidx)});
 		load_case(LPrt, refgfx::encode_prt(p), st, 0xFF, "prt_degenerate");
 	}
 	// a STATED image size that agrees with the dimensions while the file-size field / the file itself carry fewer (or no) pixel bytes: whatever
